@@ -38,3 +38,33 @@ func verifCanary(label string, cond bool) {}
 //@   ensures [C05:error-nothing] err != nil ==> len(result0) == 0
 //@   ensures [C20:fresh] err == nil ==> fresh(result0)
 //@   canary ensures [C05:canary-advance-8] err == nil ==> io.streamPos(c) == pos + 8
+
+// ---------------------------------------------------------------------------
+// C06: negotiated transport limits. The peer's Acknowledge as it is on the wire (ghost stream):
+// bytes 8..12 version, 12..16 its receive buffer, 16..20 its send buffer.
+// ---------------------------------------------------------------------------
+
+// sending a frame: socket output and encoding only (assumed; ua.Encode is reflection-driven)
+//@ func (*Conn).Send
+//@   props C06
+//@   assumed
+//@   assigns nothing
+
+//@ func (*Conn).SendError
+//@   props C06
+//@   assumed
+//@   assigns nothing
+
+//@ func (*Conn).Handshake
+//@   props C06 C05
+//@   bytes
+//@   requires connInv(c) && c.TCPConn != nil && ctx != nil
+//@   let pos = io.streamPos(c)
+//@   let ownRecv = c.ack.ReceiveBufSize
+//@   let peerRecv = uint32(io.streamAt(ref(c), pos+12)) | uint32(io.streamAt(ref(c), pos+13))<<8 | uint32(io.streamAt(ref(c), pos+14))<<16 | uint32(io.streamAt(ref(c), pos+15))<<24
+//@   let peerSend = uint32(io.streamAt(ref(c), pos+16)) | uint32(io.streamAt(ref(c), pos+17))<<8 | uint32(io.streamAt(ref(c), pos+18))<<16 | uint32(io.streamAt(ref(c), pos+19))<<24
+//@   assigns c.ack, io.streamPos(c)
+//@   ensures [C06:minimum] err == nil ==> connInv(c)
+//@   ensures [C06:send-fits-peer] err == nil ==> c.ack.SendBufSize <= peerRecv
+//@   ensures [C06:receive-covers-peer] err == nil ==> c.ack.ReceiveBufSize >= peerSend || c.ack.ReceiveBufSize >= ownRecv
+//@   ensures [C06:config-untouched] c.ack != old(c.ack) ==> fresh(c.ack)
